@@ -642,6 +642,9 @@ func (ob *Obligation) Solve(timeoutS int, keepScript bool) *SolveResult {
 	}
 	if ob.Cover && timeoutS > 3 {
 		timeoutS = 3
+		if strings.Contains(ob.Name, "/cover(antecedent(") {
+			timeoutS = 1 // only a quick `unsat` matters here
+		}
 	}
 	fileMu.Lock()
 	fileSeq++
